@@ -176,7 +176,36 @@ class Facts:
             vals = [v for v, tb in t["targets"] if tb == tk]
             is_else = (t["otherwise"] == tk)
             d = fvp.switch_discr(f, sb)
-            self.add_fact(strip(d), vals, is_else, [v for v, _ in t["targets"]])
+            # the guard speaks about the state at `sb`; the obligation is at `bb`: what the code between the two does to
+            # the length decides how much of the guard is still true (a removal between `!is_empty()` and the use)
+            shr, grw = rb.len_changes_between(f, sb, tk, self.bb)
+            if shr == 0 and grw == 0:
+                self.add_fact(strip(d), vals, is_else, [v for v, _ in t["targets"]])
+                continue
+            tmp = Facts.__new__(Facts)
+            tmp.rb, tmp.f, tmp.bb = rb, f, self.bb
+            tmp.lt_len, tmp.ge1, tmp.len_ge, tmp.le_parent_last, tmp.key_present, tmp.lt = set(), set(), 0, set(), set(), set()
+            tmp.add_fact(strip(d), vals, is_else, [v for v, _ in t["targets"]])
+            if shr == 0:
+                # growth only: lower bounds and `< LEN` facts survive, upper bounds and exact lengths do not
+                self.lt_len |= tmp.lt_len
+                self.ge1 |= tmp.ge1
+                self.lt |= tmp.lt
+                self.key_present |= tmp.key_present
+                self.len_ge = max(self.len_ge, tmp.len_ge)
+                if getattr(tmp, "hit", False):
+                    self.hit = True
+            else:
+                # removals between guard and use: `LEN >= k` degrades to `LEN >= k - removals`; nothing else about LEN survives
+                if shr is not None and tmp.len_ge - shr > 0:
+                    self.len_ge = max(self.len_ge, tmp.len_ge - shr)
+                lenc = c_len = None
+                for x in tmp.ge1:
+                    if x != "LEN":
+                        self.ge1.add(x)
+                for (a, b) in tmp.lt:
+                    if "LEN" not in a and "LEN" not in b:
+                        self.lt.add((a, b))
 
     def add_fact(self, d, vals, is_else, all_vals):
         c = self.rb.c
@@ -339,6 +368,99 @@ class RB:
             fa.len_ge = max(fa.len_ge, self.contract_len_ge(f))
             self._facts[k] = fa
         return self._facts[k]
+
+    def len_change_blocks(self, f):
+        """block -> (may remove elements, may add elements) for the call / statement events of f that change the length"""
+        if not hasattr(self, "_lcb"):
+            self._lcb = {}
+        if f.key in self._lcb:
+            return self._lcb[f.key]
+        fx = self.view.fx
+        eff = fx.effects
+        SHR = {"MW:shrink", "MW:clear", "MW:retain", "MW:raw"}
+        GRW = {"MW:grow", "MW:raw"}
+        out = {}
+
+        def mark(bb, s, g):
+            a, b = out.get(bb, (False, False))
+            out[bb] = (a or s, b or g)
+
+        for ev in fx.events(f):
+            k = ev["kind"]
+            if k == "tw":
+                how = ev.get("how") or ""
+                if how.startswith("call:"):
+                    nm = how[5:].split("::")[-1]
+                    if nm in ("swap_remove", "pop", "truncate", "clear", "drain", "remove", "retain", "retain_mut", "split_off", "take", "replace", "swap"):
+                        mark(ev["bb"], True, nm in ("take", "replace", "swap"))
+                    elif nm in ("push", "insert", "extend", "resize", "append", "extend_from_slice"):
+                        mark(ev["bb"], False, True)
+                elif ev.get("comp") == "size":
+                    v = strip(ev.get("val") or ("other",))
+                    if v[0] == "field" and v[1][0] == "binop":
+                        v = v[1]
+                    op = v[1] if v[0] == "binop" else ""
+                    mark(ev["bb"], not op.startswith("Add"), not op.startswith("Sub"))
+            elif k in ("mw", "mwraw"):
+                mc = ev.get("mclass", "raw")
+                if mc in ("shrink", "clear", "retain", "raw"):
+                    mark(ev["bb"], True, mc == "raw")
+                elif mc == "grow":
+                    mark(ev["bb"], False, True)
+            if "ci" in ev:
+                ci = ev["ci"]
+                tg = ([ci.local_callee] if ci.local_callee else []) + [c for c in ci.closures if c in self.view.prog.fns]
+                for g in tg:
+                    e = eff.get(g, set())
+                    sh = bool(e & SHR)
+                    gr = bool(e & GRW)
+                    if "TW:size" in e and not (sh or gr):
+                        sh = gr = True
+                    if sh or gr:
+                        mark(ev["bb"], sh, gr)
+        self._lcb[f.key] = out
+        return out
+
+    def len_changes_between(self, f, guard, start, end):
+        """(max number of removing events, number of adding events) on the paths start ->* end that do not pass through
+        the guard block again (a path that does re-establishes the guard); the events of `end` itself come after the use
+        and do not count; removals on a cycle inside that region give None (unbounded)"""
+        lcb = self.len_change_blocks(f)
+        if not lcb or start == end:
+            return 0, 0
+        cfg = f.cfg
+
+        def reach(frm, edges):
+            seen = {frm}
+            st = [frm]
+            while st:
+                x = st.pop()
+                for y in edges[x]:
+                    if y not in seen and y != guard:
+                        seen.add(y)
+                        st.append(y)
+            return seen
+
+        fwd = reach(start, cfg.succ)
+        bwd = reach(end, cfg.pred)
+        region = (fwd & bwd) - {end}
+        shr = [b for b in region if lcb.get(b, (False, False))[0]]
+        grw = [b for b in region if lcb.get(b, (False, False))[1]]
+        if not shr:
+            return 0, len(grw)
+        for b in shr:
+            # on a cycle that stays inside the region ?
+            seen = set()
+            st = [y for y in cfg.succ[b] if y in region]
+            while st:
+                x = st.pop()
+                if x == b:
+                    return None, len(grw)
+                if x in seen:
+                    continue
+                seen.add(x)
+                st.extend(y for y in cfg.succ[x] if y in region)
+        return len(shr), len(grw)
 
     def is_len(self, t):
         t = strip(t)
